@@ -336,6 +336,51 @@ pub fn main(args: &[String]) {
                 }
             }
         }
+        "holeparam" => {
+            // a function over two or three TYPE parameters with one value parameter whose domain is omitted (`_`) at every
+            // position; the body forces the hole to be one of the type parameters; the function is applied to ground types and
+            // literals and the result is used at the right and at a wrong ground type.  The hole is solved by a variable bound
+            // further out and then travels through substitutions under the later binders.
+            let mut all = vec![];
+            for ntypes in 2..=3usize {
+                for k in 0..ntypes {                      // the hole must become T{k}
+                    for xpos in (k + 1)..=ntypes {        // x sits after T{k}, before/after the other type parameters
+                        for combo in 0..(1usize << ntypes) {
+                            let ground: Vec<&str> = (0..ntypes).map(|i| if combo >> i & 1 == 0 { "int" } else { "bool" }).collect();
+                            let lit = |g: &str, alt: bool| if g == "int" { if alt { "4" } else { "3" } } else if alt { "false" } else { "true" };
+                            let mut params = vec![];
+                            let mut args = vec![];
+                            for i in 0..=ntypes {
+                                if i == xpos {
+                                    params.push("(x : _)".to_string());
+                                    args.push(lit(ground[k], false).to_string());
+                                }
+                                if i < ntypes {
+                                    params.push(format!("(t{i} : type)"));
+                                    args.push(ground[i].to_string());
+                                }
+                            }
+                            params.push(format!("(y : t{k})"));
+                            args.push(lit(ground[k], true).to_string());
+                            let f = format!("f = {} => if true then x else y", params.join(" => "));
+                            let call = format!("f {}", args.join(" "));
+                            let other = if ground[k] == "int" { "bool" } else { "int" };
+                            all.push(format!("{f}\nr : {} = {call}\nr", ground[k]));
+                            all.push(format!("{f}\nr : {other} = {call}\nr"));
+                            if ground[k] == "bool" {
+                                all.push(format!("{f}\nif {call} then 1 else 2"));
+                            } else {
+                                all.push(format!("{f}\n{call} + 1"));
+                                all.push(format!("{f}\nif {call} then 1 else 2"));
+                            }
+                        }
+                    }
+                }
+            }
+            for t in all.into_iter().take(if count == 0 { usize::MAX } else { count }) {
+                emit(t, "holeparam");
+            }
+        }
         "lettypes" => {
             // annotations that are definition groups: every pair of a small set of such types, as the declared type of a value,
             // as a parameter type against an argument, and through an alias; accepted exactly when the two types are the same
